@@ -43,7 +43,7 @@ func genFastaRec(thorough bool) *rapid.Generator[FastaRec] {
 	seq := fastaSeqAlpha.BlobOf(gen.Lengths(170, bounds...), 330)
 	return rapid.Custom(func(t *rapid.T) FastaRec {
 		return FastaRec{
-			Name: fastaNameAlpha.Bytes(0, 12).Draw(t, "name"),
+			Name: fastaNameAlpha.Field(12, 120, 5000).Draw(t, "name"),
 			Seq:  seq.Draw(t, "seq"),
 		}
 	})
